@@ -15,7 +15,7 @@ def run(ctx):
             if name == "deadline":
                 jobs += SL.job(b, name, v, 0, 0)
             else:
-                jobs += SL.job(b, name, v, pb, eb)
+                jobs += SL.job(b, name, v, pb, eb, shards=2 if ctx.tier == "quick" else 16)
     ctx.run_jobs(jobs, parallel=16)
     cov = SL.coverage(ctx, "scenarios of 2-4 threads on one primitive (mutex: contenders, recursive owner, tryLock; semaphore: waiters/signalers with wait, tryWait, "
                            "timed wait; signal: waiters, setter, resetter, timed waits; monitor: waiter + set after lock, timed waiters, no set; thread: join result, "
